@@ -11,6 +11,9 @@ package main
 import (
 	"fmt"
 
+	"go.sia.tech/core/consensus"
+	"go.sia.tech/core/types"
+
 	"verif/internal/chaingen"
 	"verif/internal/chainmon"
 	"verif/internal/harness"
@@ -32,6 +35,9 @@ func run(b *harness.B) {
 		led.OnApply(c.GenesisEvent)
 		led.CompareStore(c.S, "after-genesis")
 		c.OnStoreApplied = func(ev chaingen.ApplyEvent) {
+			if len(ev.Kinds) >= 3 {
+				b.Sample(chaingen.DescribeBlock(ev.Prev, ev.Block, ev.Kinds))
+			}
 			led.OnApply(ev)
 			led.CompareStore(c.S, "after-apply")
 			b.Eval(1)
@@ -50,6 +56,11 @@ func run(b *harness.B) {
 			led.CompareStore(c.S, "after-revert")
 			b.Eval(1)
 			b.Count("blocks_reverted", 1)
+		}
+		// greedy-adversary variants: blocks that would create value if accepted; an accepted one is applied to a
+		// copy of the ledger, which then judges it
+		c.OnAccepted = func(cs consensus.State, orig types.Block, bs consensus.V1BlockSupplement, kinds []string) {
+			greedy(b, c, led, cs, orig)
 		}
 		// weights: emphasise everything that moves value between the ledger's accounts
 		w := map[string]int{"v1-arb": 1, "v2-arb": 1, "v2-attest": 1, "v1-sf": 4, "v2-sf": 4, "v1-form": 4, "v2-form": 4, "v2-renew": 4, "v2-expire": 4, "v2-proof": 3, "v1-proof": 3}
@@ -83,6 +94,119 @@ func run(b *harness.B) {
 	}
 }
 
+// greedy builds value-creating variants of an accepted block (fully re-signed, re-sealed). Each must be rejected;
+// if one is accepted it is applied and the ledger copy reports what it does to the balance sheet.
+func greedy(b *harness.B, c *chaingen.Chain, led *chainmon.Ledger, cs consensus.State, orig types.Block) {
+	one := types.NewCurrency64(1)
+	try := func(name string, blk types.Block) {
+		err, vbs := c.TryVariant(&blk)
+		if chaingen.IsSealFailure(err) {
+			return
+		}
+		b.Eval(1)
+		b.Count("greedy_variants", 1)
+		b.Distinct("greedy", name, chaingen.Era(c.Net.N, cs.Index.Height+1))
+		if err != nil {
+			b.Count("greedy_variants_rejected", 1)
+			b.SetAdd("greedy_rejections", name+" => "+chaingen.NormErr(err))
+			return
+		}
+		// accepted: let the ledger judge the effect
+		next, au := consensus.ApplyBlock(cs, blk, vbs, c.AncestorTimestamp(cs.Index.Height))
+		l2 := led.Clone()
+		l2.OnApply(chaingen.ApplyEvent{Prev: cs, Next: next, Block: blk, Supp: vbs, AU: au, Kinds: []string{"greedy:" + name}})
+		b.Count("greedy_variants_accepted_and_judged_by_the_ledger", 1)
+	}
+	for i, t := range orig.V2Transactions() {
+		if len(t.SiacoinOutputs) > 0 && len(t.SiacoinInputs) > 0 {
+			blk := chaingen.CloneBlock(orig)
+			tt := &blk.V2.Transactions[i]
+			tt.SiacoinOutputs[0].Value = tt.SiacoinOutputs[0].Value.Add(one)
+			blk.V2.Transactions = blk.V2.Transactions[:i+1]
+			c.SignV2(cs, tt, nil)
+			try("v2-output-exceeds-inputs-by-one-hasting", blk)
+		}
+		if len(t.FileContractRevisions) > 0 {
+			r := t.FileContractRevisions[0]
+			if !r.Revision.MissedHostValue.IsZero() && r.Revision.MissedHostValue.Cmp(r.Revision.TotalCollateral) >= 0 {
+				// move host value to the renter until the host value is just below the missed host value
+				blk := chaingen.CloneBlock(orig)
+				tt := &blk.V2.Transactions[i]
+				rev := &tt.FileContractRevisions[0].Revision
+				sum := rev.RenterOutput.Value.Add(rev.HostOutput.Value)
+				rev.HostOutput.Value = rev.MissedHostValue.Sub(one)
+				if rev.HostOutput.Value.Cmp(rev.TotalCollateral) >= 0 || true {
+					rev.RenterOutput.Value = sum.Sub(rev.HostOutput.Value)
+					blk.V2.Transactions = blk.V2.Transactions[:i+1]
+					c.SignV2(cs, tt, nil)
+					try("v2-revision-host-value-below-missed-host-value", blk)
+				}
+			}
+		}
+		if len(t.FileContracts) > 0 && len(t.SiacoinOutputs) > 0 {
+			// contract value raised by one without funding it
+			blk := chaingen.CloneBlock(orig)
+			tt := &blk.V2.Transactions[i]
+			tt.FileContracts[0].RenterOutput.Value = tt.FileContracts[0].RenterOutput.Value.Add(types.NewCurrency64(25))
+			blk.V2.Transactions = blk.V2.Transactions[:i+1]
+			c.SignV2(cs, tt, nil)
+			try("v2-contract-value-raised-without-funding", blk)
+		}
+		for k := range t.FileContractResolutions {
+			if _, ok := t.FileContractResolutions[k].Resolution.(*types.V2FileContractRenewal); ok {
+				blk := chaingen.CloneBlock(orig)
+				tt := &blk.V2.Transactions[i]
+				ren := tt.FileContractResolutions[k].Resolution.(*types.V2FileContractRenewal)
+				ren.FinalRenterOutput.Value = ren.FinalRenterOutput.Value.Add(one)
+				blk.V2.Transactions = blk.V2.Transactions[:i+1]
+				c.SignV2(cs, tt, nil)
+				try("v2-renewal-final-outputs-plus-rollover-exceed-contract-value", blk)
+				blk2 := chaingen.CloneBlock(orig)
+				t2 := &blk2.V2.Transactions[i]
+				ren2 := t2.FileContractResolutions[k].Resolution.(*types.V2FileContractRenewal)
+				if !ren2.FinalRenterOutput.Value.IsZero() {
+					// shift one hasting from the final output into the rollover AND add an output of one hasting: total spent grows
+					ren2.FinalRenterOutput.Value = ren2.FinalRenterOutput.Value.Sub(one)
+					ren2.RenterRollover = ren2.RenterRollover.Add(one).Add(one)
+					blk2.V2.Transactions = blk2.V2.Transactions[:i+1]
+					c.SignV2(cs, t2, nil)
+					try("v2-renewal-rollover-inflated", blk2)
+				}
+				break
+			}
+		}
+	}
+	for i, t := range orig.Transactions {
+		if len(t.SiacoinOutputs) > 0 && len(t.SiacoinInputs) > 0 && len(t.StorageProofs) == 0 {
+			blk := chaingen.CloneBlock(orig)
+			tt := &blk.Transactions[i]
+			tt.SiacoinOutputs[0].Value = tt.SiacoinOutputs[0].Value.Add(one)
+			blk.Transactions = blk.Transactions[:i+1]
+			if blk.V2 != nil {
+				blk.V2.Transactions = nil
+			}
+			c.SignV1(cs, tt, nil)
+			try("v1-output-exceeds-inputs-by-one-hasting", blk)
+		}
+		if len(t.FileContracts) > 0 {
+			blk := chaingen.CloneBlock(orig)
+			tt := &blk.Transactions[i]
+			fc := &tt.FileContracts[0]
+			if len(fc.ValidProofOutputs) > 0 && len(fc.MissedProofOutputs) > 0 {
+				// pay out more than payout - tax
+				fc.ValidProofOutputs[0].Value = fc.ValidProofOutputs[0].Value.Add(types.NewCurrency64(10000))
+				fc.MissedProofOutputs[0].Value = fc.MissedProofOutputs[0].Value.Add(types.NewCurrency64(10000))
+				blk.Transactions = blk.Transactions[:i+1]
+				if blk.V2 != nil {
+					blk.V2.Transactions = nil
+				}
+				c.SignV1(cs, tt, nil)
+				try("v1-contract-outputs-exceed-payout-minus-tax", blk)
+			}
+		}
+	}
+}
+
 func main() {
 	harness.Main(harness.Spec{
 		ID:     "C01",
@@ -97,6 +221,6 @@ func main() {
 		Run:         run,
 		MinEvals:    1000,
 		MinDistinct: 200,
-		Require:     []string{"blocks_applied", "blocks_reverted", "conservation_identities_checked", "claims_checked_nonzero", "foundation_subsidies", "blocks_with_fees", "store_vs_ledger_comparisons", "histories_with_forfeited_value"},
+		Require:     []string{"blocks_applied", "blocks_reverted", "conservation_identities_checked", "claims_checked_nonzero", "foundation_subsidies", "blocks_with_fees", "store_vs_ledger_comparisons", "histories_with_forfeited_value", "greedy_variants_rejected"},
 	})
 }
